@@ -800,6 +800,11 @@ impl StreamsState {
             ));
         }
 
+        if id.initiator() != self.side && id.index() >= self.max_remote[id.dir() as usize] {
+            debug!("got MAX_STREAM_DATA on {} beyond the stream limit", id);
+            return Err(TransportError::STREAM_LIMIT_ERROR(""));
+        }
+
         let write_limit = self.write_limit();
         let max_send_data = self.max_send_data(id);
         if let Some(ss) = self
